@@ -23,7 +23,7 @@ class C08(Check):
                    'repeated interior knots have multiplicity <= order-1 (spline stays continuous); for order 1 a point on an '
                    'interior knot may take either neighbouring coefficient',
                    'everyn with nx//everyn < 2 is the open finding everyn_single_breakpoint (see known_findings.json)']
-    REQUIRED_COUNTERS = ('opt_bkspace', 'opt_nbkpts', 'opt_everyn', 'opt_placed', 'opt_bkpt', 'not_cover_adjusted',
+    REQUIRED_COUNTERS = ('single_point_evaluations', 'presorted_evaluations', 'opt_bkspace', 'opt_nbkpts', 'opt_everyn', 'opt_placed', 'opt_bkpt', 'not_cover_adjusted',
                          'points_compared_inside', 'points_outside_checked', 'unsorted_inputs', 'float32_inputs',
                          'scipy_agreements')
     CASE_CPU_S = 60
@@ -258,6 +258,28 @@ class C08(Check):
                    bool(np.array_equal(m3, mask[: max(1, xe.size // 2)][::-1])), 'order',
                    'a second value() call on the same object with a subset of the points gave different values')
         out.count('repeat_value_calls_same_object')
+        # ---- evaluation sets of special shape: a single point, the same point several times, points already in increasing /
+        #      decreasing order (what a caller's order "is" must not matter, also when there is nothing to sort)
+        tol1 = (1e-12 if case['xdtype'] == 'f8' else 1e-5) * cscale * k
+
+        def same(ysub, msub, idx, what):
+            yr, mr = y[idx], mask[idx]
+            fin = np.isfinite(yr) & np.isfinite(ysub)
+            ok = ysub.shape == yr.shape and bool(np.array_equal(np.isfinite(ysub), np.isfinite(yr))) and \
+                bool(np.all(np.abs(ysub[fin].astype('f8') - yr[fin].astype('f8')) <= tol1)) and bool(np.array_equal(msub, mr))
+            out.expect(ok, 'order', 'value() on %s differs from the same points evaluated within the full set' % what)
+        picks = [int(np.argmax(inside)), int(np.argmax(~inside)) if (~inside).any() else 0, int(g.integers(0, xe.size))]
+        for j in picks:
+            y1, m1 = s.value(xe[j:j + 1].copy())
+            same(y1, m1, np.array([j]), 'a single point')
+            y5, m5 = s.value(np.full(4, xe[j], dtype=xe.dtype))
+            same(y5, m5, np.array([j] * 4), 'one point repeated four times')
+        out.count('single_point_evaluations', len(picks))
+        so = np.argsort(xd, kind='stable')
+        for idx, what in ((so, 'points in increasing order'), (so[::-1], 'points in decreasing order')):
+            ys_, ms_ = s.value(xe[idx].copy())
+            same(ys_, ms_, idx, what)
+        out.count('presorted_evaluations', 2)
         # ---- (c) basis: non-negative, sums to one on the range
         xs = np.sort(xe[inside & ~at_discont])
         if xs.size:
